@@ -86,10 +86,8 @@ func vc26_codeblock(n int, spaces bool) {
 		back = append(back, c)
 		i++
 		if c == '\n' {
-			if i < len(out) && out[i] == '\r' {
-				back = append(back, '\r')
-				i++
-			}
+			// the indentation must follow the newline immediately: a converter
+			// (goldmark) does not take "\r\t" at a line start for an indented line
 			vassert(len(out)-i >= len(indent) && out[i:i+len(indent)] == indent, "newline-followed-by-indent")
 			i += len(indent)
 		}
